@@ -410,7 +410,8 @@ func (bc *BoundsAnalyzer) getOrInferRelTypes(
 		if err != nil {
 			return nil, err
 		}
-		return []ast.BaseTerm{relType}, nil
+		// A declaration with several bound decls yields a union of relation types.
+		return symbols.RelTypeAlternatives(relType), nil
 	}
 
 	bc.visiting[pred] = true
